@@ -4,11 +4,14 @@
 //!   verif worker <engine>                 (internal) shard process
 //!   verif replay <file>                   re-execute a recorded violation / known finding
 
+mod c13;
 mod e1_checks;
 mod e1b_checks;
 mod e2_c03;
+mod e2_c05;
 mod e2_c06;
 mod e2_c09;
+mod e2_c12;
 mod e3_codec;
 mod e3_config;
 mod e3_window;
@@ -106,9 +109,14 @@ fn worker_dispatch(engine: &str) -> Box<dyn Fn(&Value) -> Value> {
     match engine {
         "modea" => Box::new(e1_checks::modea_cell),
         "modeb" => Box::new(e1b_checks::modeb_cell),
+        "c13_fsize" => Box::new(c13::fsize_cell),
+        "c13_two" => Box::new(c13::two_cell),
+        "c13_e2" => Box::new(c13::e2_cell),
         "c03" => Box::new(e2_c03::cell),
+        "c05" => Box::new(e2_c05::cell),
         "c06" => Box::new(e2_c06::cell),
         "c09" => Box::new(e2_c09::cell),
+        "c12" => Box::new(e2_c12::cell),
         "c10" => Box::new(e3_codec::c10_cell),
         "c11" => Box::new(e3_codec::c11_cell),
         "c17" => Box::new(e3_config::cell),
@@ -123,8 +131,11 @@ fn run_check(id: &str, tier: Tier) -> Option<Outcome> {
         "C02" => e1_checks::c02_check(tier),
         "C03" => e2_c03::check(tier),
         "C04" => e1b_checks::c04_check(tier),
+        "C05" => e2_c05::check(tier),
         "C06" => e2_c06::check(tier),
         "C09" => e2_c09::check(tier),
+        "C12" => e2_c12::check(tier),
+        "C13" => c13::check(tier),
         "C15" => e1b_checks::c15_check(tier),
         "C07" => e1_checks::c07_check(tier),
         "C08" => e1_checks::c08_check(tier),
@@ -170,9 +181,13 @@ fn replay(path: &str) -> i32 {
     let text = match r["engine"].as_str().unwrap_or("") {
         "modea" => e1_checks::replay(r),
         "modeb" => e1b_checks::replay(r),
+        "c13_two" => c13::replay_two(r),
+        "c13_e2" => c13::replay_e2(r),
         "e2_c03" => e2_c03::replay(r),
+        "e2_c05" => e2_c05::replay(r),
         "e2_c06" => e2_c06::replay(r),
         "e2_c09" => e2_c09::replay(r),
+        "e2_c12" => e2_c12::replay(r),
         "e3_codec" => e3_codec::replay(r),
         "e3_config" => e3_config::replay(r),
         "e3_window" => e3_window::replay(r),
